@@ -49,6 +49,14 @@ hist.update({'m8_C02h':'inconclusive as built (ParseInt on the opaque text of a 
 summ.update({'m8_C02h':'integer literals go through ParseInt(text, 0, 64): 010 is 8','m8_C04h':'column ownership in ON decided by HasPrefix(path, alias): alias t claims t2.y','m8_C05h':'row scan stops after offset+limit matches although an aggregate-only select list folds all rows','m8_C06h':'UNION ALL … LIMIT n pushes the LIMIT into every branch, overwriting a branch\'s own LIMIT/OFFSET',
 'm8_C08h':'mix=> takes a one-level fast path when its first element holds no arrays','m8_C11h':'SubqueryExpr skips the private row copy when the row already has a `<-` key: a CTE inside the subquery is registered in the caller\'s row','m8_C12h':'selector cache stores the prefix chain under every stage text of a `::` selector: later plain selectors are silently redirected','m8_C14h':'RegisterImmediateFunction stores the name as given while the check lower-cases it: mixed-case immediate functions accept ASYNC/SPIN',
 'm8_C15h':'number-vs-string renders integral float64 with FormatInt: 1e6 becomes 1000000 instead of 1e+06','m8_C16h':'QuoteString ranges over runes: bytes that are not valid UTF-8 become U+FFFD','m8_C18h':'TO_UPPER uses strings.ToTitle (differs for Latin digraphs and Georgian)','m8_C20h':'WithVars copies the caller\'s map at New and writes it back after Exec: queries prepared up front do not see each other\'s stores'})
+
+hist.update({'m9_C20i':'caught as built','m9_C17i':'caught as built','m9_C07i':'caught as built','m9_C13i':'caught as built (H_C13_selfpairs)',
+'m9_C01i':'inconclusive by C01 as built (ParseInt on the opaque text of symbolic literals: partial concretisation, 20 min), caught by C02 (H_C02_literals) → H_C01_literals (9 spellings of one constant under every operator, IN, NOT IN, BETWEEN)','m9_C03i':'missed → mixed-case column names in H_C03_group1; H_C02_colcase (15 clause templates over tables whose columns are spelled Cat/subTotal, KEY1/VAL, k_1/V2x against the lower-case spelling)',
+'m9_C08i':'missed → levels that hold an inner array next to a plain row (both orders) and aliased projections in H_C08_depth3','m9_C09i':'missed (the 3×3 matrix needs neighbouring cells that differ for the overwrite to show) → ranges below the inner length on a 3×3 matrix, kept / flattened / through mix=>','m9_C10i':'missed → H_C10_reexec (every listed query executed three times on one Query object, with and without WithVars); SETVAR/GETVAR without WithVars inside PARALLEL join conditions',
+'m9_C11i':'missed → a nested table whose rows have one key spelled like the table, read by EXISTS and by a select-list subquery','m9_C14i':'missed → names registered as ordinary/external functions (and the built-in CONCAT) re-registered as immediate','m9_C19i':'missed → failing calls inside AWAIT(...) in the select list and inside a row-scoped subquery'})
+summ.update({'m9_C01i':'integer and hex literals parsed with ParseInt(text, 0, 64): WHERE code = 010 compares with 8','m9_C03i':'GROUP BY column names are lower-cased before the row lookup','m9_C07i':'an index/range selector on a lazily evaluated CTE is dropped after evaluation','m9_C08i':'ExecSelect returns a level unprojected when its first element is an array',
+'m9_C09i':'MixArray returns non-nested input itself and adopts the first chunk: append writes into the document when a range leaves spare capacity','m9_C10i':'SETVAR unlocks inline: a panic (nil vars map) leaves the lock held; later stores deadlock','m9_C11i':'ExistExpr writes the outer columns into an inner row that looks like an alias wrapper (single key equal to the table name)','m9_C13i':'IsImmediateFunction sorts the package-level list in place on first use',
+'m9_C14i':'RegisterImmediateFunction skips names that already exist in the function table','m9_C17i':'DoubleQuotesToBackTick writes identifier bytes with WriteRune (bytes ≥ 0x80 re-encoded)','m9_C19i':'AWAIT post-processor returns the enclosing nil err instead of the argument error','m9_C20i':'GETVAR of an unset key falls back to a selector lookup in the variable map'})
 rows=[]
 for d in sorted(glob.glob('/verif/seeded/m*')):
     n=os.path.basename(d)
